@@ -178,6 +178,7 @@ def run(ctx):
             break
     ctx.count(nobj)
     ctx.extra['object_requeries'] = nobj
+    ctx.run_modes()
     return ctx.finish(
         LEVEL,
         explanation='Theorems: cropping overwrites a buffer slot completely for both back-ends; a call on ANY state (arbitrary slot and output-array '
